@@ -365,3 +365,6 @@ _quick("C08", "C08_tail", "a log of a header and 1..3 records (symbolic bytes) c
 _quick("C20", "C20_longwait", "a long-wait bucket queue with a scaled-down geometry (base 1, 4 node slots, first node 2 entries; the server uses 4 / 64 / 256) through 1..6 cycles of: push 3 / 7 / 13 entries, remove all but the last 0..1, the real restructuringLongTimeOutQueue or ...ExpriedQueue, pop the rest; then Reset: contents as the model's, no index outside the node table", ["-witness", "6"])
 
 _quick("C02", "C03_cancel", "(also under C03) cancel-wait naming a queued request that was already answered (timed out) and still sits in the queue behind a live one: the cancel is refused, nobody is answered twice", ["-witness", "1"], reach=["end", "cancel-dead", "cancel-live"])
+
+_quick("C05", "C05_sweeploop", "one real round of the timeout sweeper loop LockDB.checkTimeOut (hook vfSingleRound) after the clock moved on by T+1 .. T+3 seconds at once (T in 1..4), the sweeps it starts run afterwards: the wait is answered TIMEOUT by that round and the sweeper's position is the next second (symbolic executor only)", ["-witness", "0"], native=False)
+_quick("C06", "C06_sweeploop", "one real round of the expiry sweeper loop LockDB.checkExpried after the clock moved on by E+1 .. E+3 seconds at once (E in 1..4): the hold is ended with one EXPRIED by that round (symbolic executor only)", ["-witness", "0"], native=False)
